@@ -6,7 +6,7 @@ use mc::bfs::{abstract_closed_form, bfs, layouts_closed_form, Caps};
 use mc::ctx::*;
 use mc::json::J;
 use mc::mapsys::{Alpha, MapSys};
-use mc::payload::{KeyT, Kx, ValT, Vx};
+use mc::payload::{Big, KeyT, Kx, ValT, Vx};
 use std::collections::HashSet;
 use std::time::Duration;
 
@@ -17,10 +17,18 @@ fn run_bfs<K: KeyT, V: ValT, const N: usize>(rep: &mut EngineReport, nk: u8, nv:
     let t0 = std::time::Instant::now();
     let out = bfs(&sys, threads, caps, &mut cx);
     let abs: HashSet<Vec<(u8, u8, u8)>> = out.states.iter().map(|s| s.snap.abstracted()).collect();
-    let a = (K::TAGS as usize) * (sys.nv as usize);
+    // or_default() stores Default::default(), which for some value types lies outside the alphabet
+    // (only the entry API's or_default does that, and it is executed only for the properties covering it)
+    let entry_runs = mc::mapsys::MapOp::Entry { k: 0, t: 0, chain: mc::mapsys::EChain::OrDefault, v: 0 }.relevant() & cx.enabled != 0;
+    let vals = sys.nv as usize + usize::from(V::DEFAULT_CODE >= sys.nv && entry_runs);
+    let a = (K::TAGS as usize) * vals;
     let want_abs = abstract_closed_form(N, sys.nk as usize, a);
     let layouts = layouts_closed_form(N, sys.nk as usize, a);
-    if out.capped.is_none() && cx.total_violations() == 0 && abs.len() as u64 != want_abs {
+    let nan = mc::payload::nan_code().is_some();
+    if nan {
+        cx.here.config.push_str(&format!(" [key k{} is not equal to itself]", sys.nk - 1));
+    }
+    if !nan && out.capped.is_none() && cx.total_violations() == 0 && abs.len() as u64 != want_abs {
         cx.machinery(format!(
             "vacuity: {} distinct abstract states visited, closed form says {want_abs} ({})",
             abs.len(),
@@ -32,7 +40,7 @@ fn run_bfs<K: KeyT, V: ValT, const N: usize>(rep: &mut EngineReport, nk: u8, nv:
     }
     rep.configs.push(
         J::obj()
-            .set("config", cx.here.config.as_str())
+            .set("config", cx.here.config.clone())
             .set("ops_in_alphabet", sys.ops.len())
             .set("states", out.states.len())
             .set("abstract_states", abs.len())
@@ -121,12 +129,30 @@ fn main() {
         std::process::exit(code);
     }
     let hist_depth = args.usize("hist", 0);
+    // element shapes: the same exploration on other key/value types
+    let payload = args.get("payload").unwrap_or("kx").to_string();
     for n in ns {
         let nk = (n + extra_k).max(1) as u8;
         if alpha == Alpha::Hist {
             mc::with_n!(n, run_hist::<Kx, Vx>(&mut rep, nk, nv, hist_depth.max(1), threads));
-        } else {
+            continue;
+        }
+        if args.flag("nan") {
+            // non-reflexive key mode: the last key of the universe compares unequal to itself
+            mc::payload::set_nan_code(Some(nk - 1));
             mc::with_n!(n, run_bfs::<Kx, Vx>(&mut rep, nk, nv, alpha, threads, &caps));
+            mc::payload::set_nan_code(None);
+            continue;
+        }
+        match payload.as_str() {
+            "nodrop" => mc::with_n!(n, run_bfs::<mc::payload::Kn, mc::payload::Vn>(&mut rep, nk, nv, alpha, threads, &caps)),
+            "u8" => mc::with_n!(n, run_bfs::<u8, u8>(&mut rep, nk, nv, alpha, threads, &caps)),
+            "string" => mc::with_n!(n, run_bfs::<String, String>(&mut rep, nk, nv, alpha, threads, &caps)),
+            "unitkey" => mc::with_n!(n, run_bfs::<(), Vx>(&mut rep, nk, nv, alpha, threads, &caps)),
+            "zstval" => mc::with_n!(n, run_bfs::<Kx, ()>(&mut rep, nk, nv, alpha, threads, &caps)),
+            "big" => mc::with_n!(n, run_bfs::<u8, Big>(&mut rep, nk, nv, alpha, threads, &caps)),
+            "strbig" => mc::with_n!(n, run_bfs::<String, Big>(&mut rep, nk, nv, alpha, threads, &caps)),
+            _ => mc::with_n!(n, run_bfs::<Kx, Vx>(&mut rep, nk, nv, alpha, threads, &caps)),
         }
     }
     std::process::exit(rep.finish(args.get("out")));
